@@ -366,8 +366,14 @@ def gen_scalar(g: G, m, depth):
             c = [g.pick(["ne", "eq"]), a2, ["lit", 0.123]]
         g.features.add("op:cond")
         return ["cond", c, gen_scalar(g, m, depth - 1), gen_scalar(g, m, depth - 1)]
-    f = g.pick(SAFE_UNARY if not g.complex else ["sin", "cos", "exp_s", "sq", "cube", "abs", "sqrt_s", "conj", "real", "imag", "sinh_s", "cosh_s", "tanh"])
+    funs = SAFE_UNARY if not g.complex else ["sin", "cos", "exp_s", "sq", "cube", "abs", "sqrt_s", "conj", "real", "imag", "sinh_s", "cosh_s", "tanh"]
+    if g.profile.get("bessel") and not g.complex:
+        # Bessel functions of the first/second kind (C: jn/yn); argument kept in [0.5, 2.5] (Y_n is singular at 0)
+        funs = list(funs) + ["besselJ_s", "besselY_s"]
+    f = g.pick(funs)
     g.features.add("fun:" + f)
+    if f in ("besselJ_s", "besselY_s"):
+        return ["bessel_J" if f == "besselJ_s" else "bessel_Y", ["lit", g.int(0, 2)], ["add", ["lit", 1.5], ["tanh", a]]]
     if f in ("sin", "cos", "tanh", "atan", "abs", "erf", "conj", "real", "imag"):
         if f == "tanh" and g.complex:
             return ["tanh", ["real", a]]
